@@ -20,7 +20,11 @@
 //!     some order is either right or caught here.
 //!  A  real trees: n in 1..=N (64 quick / 300 thorough), every i < n, 3 content
 //!     schedules, proofs from the in-memory and the storage-backed tree.
-//!     Completeness: verify(tree.root(), data_i, prove(i), i, n) == true.
+//!     Completeness: verify(tree.root(), data_i, prove(i), i, n) == true, for the
+//!     tree built on clean storage and for the same n-leaf tree reached through a
+//!     history over dirty storage: (a) N different leaves pushed, reset(), n leaves
+//!     pushed (stored + in-memory tree); (b) N leaves pushed, load(storage, n)
+//!     (stored tree); N in {n+1, P = next power of two >= n+1, 2P}.
 //!     Soundness: every single structured mutation of the valid tuple (root: 5
 //!     variants; data: up to 6; every index 0..=n+1 and u64::MAX; every count 0..=n+2
 //!     and all 2^k-1,2^k,2^k+1 (k<=64); per proof element 2 bit flips, removal,
@@ -318,94 +322,183 @@ fn unit_s(m: u64, lmax: usize, elems: &[H256], folds: &[Vec<Vec<H256>>], acc: &m
 
 // ------------------------------------------------------------------ space A
 
-fn complete_case(n: u64, i: u64, s: u8) -> Value {
-    json!({"kind": "complete", "n": n, "i": i, "schedule": s})
+/// How the n-leaf tree was reached.
+#[derive(Clone, Copy, Debug, PartialEq)]
+enum Hist {
+    /// n pushes on fresh storage
+    Clean,
+    /// N > n *different* leaves pushed, `reset()`, then the n leaves pushed (the node
+    /// storage still holds the larger tree's nodes)
+    Reset(u64),
+    /// N > n leaves pushed (the first n are the tree's), then `load(storage, n)`
+    Load(u64),
+}
+
+impl Hist {
+    fn suffix(self) -> &'static str {
+        match self {
+            Hist::Clean => "",
+            Hist::Reset(_) => ":after-reset",
+            Hist::Load(_) => ":after-load",
+        }
+    }
+
+    fn label(self) -> &'static str {
+        match self {
+            Hist::Clean => "clean",
+            Hist::Reset(_) => "reset",
+            Hist::Load(_) => "load",
+        }
+    }
+
+    fn to_json(self) -> Value {
+        match self {
+            Hist::Clean => json!({"how": "clean"}),
+            Hist::Reset(big) => json!({"how": "reset", "big": big}),
+            Hist::Load(big) => json!({"how": "load", "big": big}),
+        }
+    }
+
+    fn from_json(v: &Value) -> Hist {
+        match v["how"].as_str() {
+            None | Some("clean") => Hist::Clean,
+            Some("reset") => Hist::Reset(v["big"].as_u64().expect("big")),
+            Some("load") => Hist::Load(v["big"].as_u64().expect("big")),
+            other => panic!("unknown history {other:?}"),
+        }
+    }
+}
+
+/// The larger sizes N used for the reset/load histories of an n-leaf tree.
+fn bigger_sizes(n: u64) -> Vec<u64> {
+    let p = (n + 1).next_power_of_two();
+    let mut v = vec![n + 1, p, 2 * p];
+    v.dedup();
+    v
+}
+
+fn complete_case(n: u64, i: u64, s: u8, h: Hist) -> Value {
+    json!({"kind": "complete", "n": n, "i": i, "schedule": s, "history": h.to_json()})
 }
 
 struct Built {
+    hist: Hist,
     data: Vec<Vec<u8>>,
-    im: in_memory::MerkleTree,
-    st: Tree,
-    im_root: H256,
-    st_root: H256,
+    /// (name, tree, root()) — in-memory tree absent for `Hist::Load`
+    im: Option<(in_memory::MerkleTree, H256)>,
+    st: (Tree, H256),
 }
 
-fn build(n: u64, s: u8) -> Result<Built, String> {
+fn build(n: u64, s: u8, hist: Hist) -> Result<Built, String> {
     let data = leaves(s, n);
-    let mut im = in_memory::MerkleTree::new();
-    let mut st = Tree::new(Store::new());
-    guard::catch_any(|| {
-        for d in &data {
-            im.push(d);
+    let r = guard::catch_any(|| -> Result<Built, String> {
+        let store = Store::new();
+        let mut st = Tree::new(store.clone());
+        let mut im = in_memory::MerkleTree::new();
+        let push_st = |t: &mut Tree, d: &[u8]| t.push(d).map_err(|e| format!("stored push failed: {e:?}"));
+        let mut with_im = true;
+        match hist {
+            Hist::Clean => {}
+            Hist::Reset(big) => {
+                for p in 0..big {
+                    let d = leaf(s, 1_000_000 + p);
+                    push_st(&mut st, &d)?;
+                    im.push(&d);
+                }
+                st.reset();
+                im.reset();
+            }
+            Hist::Load(big) => {
+                for p in 0..big {
+                    push_st(&mut st, &leaf(s, p))?;
+                }
+                st = Tree::load(store.clone(), n).map_err(|e| format!("load({n}) after {big} pushes failed: {e:?}"))?;
+                with_im = false;
+            }
         }
-    })
-    .map_err(|m| format!("in-memory push panicked: {m}"))?;
-    guard::catch_any(|| {
-        for d in &data {
-            st.push(d).map_err(|e| format!("{e:?}"))?;
+        if !matches!(hist, Hist::Load(_)) {
+            for d in &data {
+                push_st(&mut st, d)?;
+                im.push(d);
+            }
         }
-        Ok::<(), String>(())
-    })
-    .map_err(|m| format!("stored push panicked: {m}"))?
-    .map_err(|m| format!("stored push failed: {m}"))?;
-    let im_root = guard::catch_any(|| im.root()).map_err(|m| format!("root panicked: {m}"))?;
-    let st_root = guard::catch_any(|| st.root()).map_err(|m| format!("root panicked: {m}"))?;
-    Ok(Built {
-        data,
-        im,
-        st,
-        im_root,
-        st_root,
-    })
+        let st_root = st.root();
+        let im = if with_im {
+            let r = im.root();
+            Some((im, r))
+        } else {
+            None
+        };
+        Ok(Built {
+            hist,
+            data: vec![],
+            im,
+            st: (st, st_root),
+        })
+    });
+    match r {
+        Ok(Ok(mut b)) => {
+            b.data = data;
+            Ok(b)
+        }
+        Ok(Err(m)) => Err(m),
+        Err(m) => Err(format!("building the tree panicked: {m}")),
+    }
 }
 
-/// Completeness of one (tree, i). Returns the in-memory proof for the mutation step.
-fn complete_one(b: &Built, n: u64, i: u64, s: u8, acc: &mut Acc) -> Option<Vec<H256>> {
+/// Completeness of one (tree, i). Returns the in-memory proof (if that tree exists)
+/// for the mutation step, and the stored tree's proof.
+fn complete_one(b: &Built, n: u64, i: u64, s: u8, acc: &mut Acc) -> (Option<Vec<H256>>, Option<Vec<H256>>) {
     let d = &b.data[i as usize];
-    let mut im_proof = None;
-    let proofs: [(&str, H256, Result<Option<(H256, Vec<H256>)>, String>); 2] = [
-        ("inmem", b.im_root, guard::catch_any(|| b.im.prove(i))),
-        ("stored", b.st_root, guard::catch_any(|| b.st.prove(i).ok())),
-    ];
+    let h = b.hist;
+    let (mut im_proof, mut st_proof) = (None, None);
+    let mut proofs: Vec<(&str, H256, Result<Option<(H256, Vec<H256>)>, String>)> = vec![];
+    if let Some((im, r)) = &b.im {
+        proofs.push(("inmem", *r, guard::catch_any(|| im.prove(i))));
+    }
+    proofs.push(("stored", b.st.1, guard::catch_any(|| b.st.0.prove(i).ok())));
     for (name, tree_root, got) in proofs {
         acc.evals += 1;
+        let sfx = h.suffix();
         match got {
             Ok(Some((r, p))) => {
                 if r != tree_root {
                     acc.viol(
-                        format!("C10:complete:{name}:root_mismatch"),
-                        format!("n={n} i={i}: prove returned a root different from root()"),
-                        complete_case(n, i, s),
+                        format!("C10:complete:{name}:root_mismatch{sfx}"),
+                        format!("n={n} i={i} history={h:?}: prove returned a root different from root()"),
+                        complete_case(n, i, s, h),
                     );
                 }
                 match guard::catch_any(|| binary::verify(&tree_root, d, &p, i, n)) {
                     Ok(true) => {
-                        *acc.hist.entry(format!("complete:{name}:verified")).or_insert(0) += 1;
-                        acc.fps.insert(hash64(&("complete", name, n, i)));
+                        *acc.hist.entry(format!("complete:{name}:{}:verified", h.label())).or_insert(0) += 1;
+                        acc.fps.insert(hash64(&("complete", name, h.label(), n, i)));
                     }
                     Ok(false) => acc.viol(
-                        format!("C10:complete:{name}:verify_false"),
-                        format!("n={n} i={i} schedule={s}: the tree's own proof (len {}) does not verify against its root", p.len()),
-                        complete_case(n, i, s),
+                        format!("C10:complete:{name}:verify_false{sfx}"),
+                        format!("n={n} i={i} schedule={s} history={h:?}: the tree's own proof (len {}) does not verify against its root", p.len()),
+                        complete_case(n, i, s, h),
                     ),
                     Err(m) => acc.viol(
                         "C10:verify:panic".into(),
-                        format!("n={n} i={i}: verify of the tree's own proof panicked: {m}"),
-                        complete_case(n, i, s),
+                        format!("n={n} i={i} history={h:?}: verify of the tree's own proof panicked: {m}"),
+                        complete_case(n, i, s, h),
                     ),
                 }
                 if name == "inmem" {
                     im_proof = Some(p);
+                } else {
+                    st_proof = Some(p);
                 }
             }
             other => acc.viol(
-                format!("C10:complete:{name}:prove_failed"),
-                format!("n={n} i={i}: prove returned {}", format!("{other:?}").chars().take(120).collect::<String>()),
-                complete_case(n, i, s),
+                format!("C10:complete:{name}:prove_failed{sfx}"),
+                format!("n={n} i={i} history={h:?}: prove returned {}", format!("{other:?}").chars().take(120).collect::<String>()),
+                complete_case(n, i, s, h),
             ),
         }
     }
-    im_proof
+    (im_proof, st_proof)
 }
 
 fn flip(mut h: H256, byte: usize, bit: u8) -> H256 {
@@ -508,18 +601,19 @@ fn mutate(base: &Tuple, product: bool, pow2: &[u64], acc: &mut Acc) {
 }
 
 fn unit_a(n: u64, s: u8, product: bool, pow2: &[u64], acc: &mut Acc) {
-    let b = match build(n, s) {
+    let b = match build(n, s, Hist::Clean) {
         Ok(b) => b,
         Err(m) => {
-            acc.viol("C10:complete:build".into(), format!("n={n} schedule={s}: {m}"), complete_case(n, 0, s));
+            acc.viol("C10:complete:build".into(), format!("n={n} schedule={s}: {m}"), complete_case(n, 0, s, Hist::Clean));
             return
         }
     };
     // informational: are the proofs we mutate the RFC audit paths?
     let hs: Vec<H256> = b.data.iter().map(|d| oracle::leaf_hash(d)).collect();
     let rfc_root = oracle::mth_hashed(&hs);
+    let mut rfc_paths: BTreeMap<u64, Vec<H256>> = BTreeMap::new();
     for i in 0..n {
-        let Some(p) = complete_one(&b, n, i, s, acc) else { continue };
+        let (Some(p), _) = complete_one(&b, n, i, s, acc) else { continue };
         if n <= 64 || i == 0 || i == n - 1 {
             let ap = oracle::audit_path(i as usize, &hs);
             // harness self-check of the reference (not a verdict about the subject)
@@ -527,14 +621,15 @@ fn unit_a(n: u64, s: u8, product: bool, pow2: &[u64], acc: &mut Acc) {
                 oracle::root_from_path(i, n, hs[i as usize], &ap) == Some(rfc_root) && Some(ap.len()) == path_len(i, n),
                 "harness oracle self-check failed: audit_path/root_from_path/mth/path_len disagree at n={n} i={i}"
             );
-            acc.info(if ap == p && b.im_root == rfc_root {
+            acc.info(if ap == p && b.im.as_ref().map(|x| x.1) == Some(rfc_root) {
                 "info:tree_proof_is_rfc_audit_path"
             } else {
                 "info:tree_proof_differs_from_rfc_audit_path(dont_care_here)"
             });
+            rfc_paths.insert(i, ap);
         }
         let base = Tuple {
-            root: b.im_root,
+            root: b.im.as_ref().expect("clean build has the in-memory tree").1,
             data: b.data[i as usize].clone(),
             proof: p,
             index: i,
@@ -549,6 +644,35 @@ fn unit_a(n: u64, s: u8, product: bool, pow2: &[u64], acc: &mut Acc) {
             acc.samples.push(j);
         }
         mutate(&base, product, pow2, acc);
+    }
+    // the same n-leaf tree reached through reset / load over storage that still holds a
+    // larger tree: completeness only (the verifier does not depend on the history)
+    for big in bigger_sizes(n) {
+        for hist in [Hist::Reset(big), Hist::Load(big)] {
+            let hb = match build(n, s, hist) {
+                Ok(hb) => hb,
+                Err(m) => {
+                    acc.viol(format!("C10:complete:build{}", hist.suffix()), format!("n={n} schedule={s} history={hist:?}: {m}"), complete_case(n, 0, s, hist));
+                    continue
+                }
+            };
+            for i in 0..n {
+                let (imp, stp) = complete_one(&hb, n, i, s, acc);
+                if let Some(ap) = rfc_paths.get(&i) {
+                    for p in [imp, stp].into_iter().flatten() {
+                        acc.info(if *ap == p {
+                            "info:history_tree_proof_is_rfc_audit_path"
+                        } else {
+                            "info:history_tree_proof_differs_from_rfc_audit_path(dont_care_here)"
+                        });
+                    }
+                }
+            }
+            if s == 1 && n == 7 && hist == Hist::Reset(8) {
+                acc.samples.push(json!({"kind": "complete", "n": n, "schedule": s, "history": hist.to_json(), "indices": "all i < n",
+                    "expected": "prove(i) verifies against root() for the in-memory and the stored tree"}));
+            }
+        }
     }
 }
 
@@ -678,6 +802,8 @@ fn explore(ctx: &Ctx) {
     ctx.set(
         "space_A",
         json!({"n_completed": done_n, "n_target": n_max, "indices": "all i < n", "schedules": 3,
+               "completeness_histories": ["clean", "reset after N different leaves", "load(storage, n) after N leaves"],
+               "history_N": "n+1, P = next power of two >= n+1, 2P",
                "index_count_product_upto_n": {"all_schedules": n_prod_all, "schedule0": n_prod_s0},
                "count_pow2_neighbours": pow2.len(), "capped": capped}),
     );
@@ -711,11 +837,12 @@ fn replay(case: &Value, ctx: &Ctx) {
             let n = case["n"].as_u64().expect("n");
             let i = case["i"].as_u64().expect("i");
             let s = case["schedule"].as_u64().expect("schedule") as u8;
-            match build(n, s) {
+            let h = Hist::from_json(&case["history"]);
+            match build(n, s, h) {
                 Ok(b) => {
                     complete_one(&b, n, i, s, &mut acc);
                 }
-                Err(m) => acc.viol("C10:complete:build".into(), m, case.clone()),
+                Err(m) => acc.viol(format!("C10:complete:build{}", h.suffix()), m, case.clone()),
             }
         }
         other => panic!("unknown case kind {other:?}"),
